@@ -112,6 +112,7 @@ type interpreter struct {
 	discharged         int             // ... answered unsat
 	nontrivial         bool            // the current path executed an assertion with a non-constant condition
 	panicStack         string
+	curStack           string
 	locks              *lockState
 	sched              *sched
 	goroutines         int32                  // atomically updated
@@ -288,6 +289,13 @@ func visitInstr(fr *frame, instr ssa.Instruction) continuation {
 		store(mustDeref(instr.Addr.Type()), fr.get(instr.Addr).(*value), fr.get(instr.Val))
 
 	case *ssa.If:
+		if os.Getenv("SYMGO_WATCH") != "" {
+			st := ""
+			for f := fr; f != nil; f = f.caller {
+				st += f.fn.String() + " <- "
+			}
+			fr.i.curStack = st
+		}
 		succ := 1
 		if fr.i.cond(fr.get(instr.Cond)) {
 			succ = 0
